@@ -43,7 +43,7 @@ type Prog struct {
 	// ("GOOS=windows GOARCH=amd64") under which they would be built
 	ExcludedFiles []string
 	AltConfigs    []string
-	dropped     map[*ssa.Function]bool
+	dropped       map[*ssa.Function]bool
 
 	roles *Roles
 	sums  map[sumKey]bool
@@ -340,6 +340,10 @@ func FName(fn *ssa.Function) string {
 func (p *Prog) PkgRel(fn *ssa.Function) string {
 	for fn != nil && fn.Pkg == nil && fn.Parent() != nil {
 		fn = fn.Parent()
+	}
+	// an instantiation of a generic function belongs to the package of its origin
+	if fn != nil && fn.Pkg == nil && fn.Origin() != nil {
+		fn = fn.Origin()
 	}
 	if fn == nil || fn.Pkg == nil {
 		return "?"
